@@ -3,7 +3,7 @@ Shared by C04, C05, C14, C15, C16 (and C09/C10 for the end labels)."""
 import ast
 
 from .model import AnalysisError, walk_shallow, dotted, norm
-from .util import cfg_of, shallow_calls, local_defs, resolve_name, guarded_by_edge, strip_not, compare_parts
+from .util import parents, cfg_of, shallow_calls, local_defs, resolve_name, guarded_by_edge, strip_not, compare_parts, inline_self_helpers, FuncView
 from .cfg import INF
 
 END = {'append': 'right', 'appendleft': 'left', 'pop': 'right', 'popleft': 'left', 'extend': 'right', 'extendleft': 'left'}
@@ -157,26 +157,77 @@ def check_complete_circuit(run, model, rule):
     run.touch(f, g)
     q = f.params[0] + '.queue'
     heads = [h for h in g.loop_heads() if h.kind == 'test']
-    if len(heads) != 1:
-        raise AnalysisError('complete_circuit: expected one while loop')
-    h = heads[0]
-    rec, pol = is_nonempty_test(h.ast, q)
-    ok = rec and pol
-    run.inst(rule, f, 'loops while the queue is non-empty', ok,
-             '' if ok else 'the loop guard %s is not "the queue is non-empty": complete_circuit can return with events pending' % norm(h.ast), node=h.ast, obligation=True)
-    body = g.loop_body(h)
-    steps = [n for n in body if n.kind not in ('entry', 'exit', 'xexit', 'def') and
-             any(isinstance(c.func, ast.Attribute) and c.func.attr == 'next_rtc' and dotted(c.func.value) == f.params[0] for c in n.calls())]
-    succ = [m for m, l in g.succ[h] if l == 'true']
-    cnt = g.count_on_paths(lambda n: 1 if n in steps else 0, start=succ[0], end=h) if succ else None
-    ok = cnt is not None and cnt[0] >= 1
-    run.inst(rule, f, 'every iteration takes a step', ok, '' if ok else 'an iteration of the loop may not call next_rtc (steps per iteration %s): livelock' % (cnt,), obligation=True)
-    # no return/break inside the loop
-    esc = [n for n in body if n.kind == 'stmt' and isinstance(n.ast, (ast.Return, ast.Break))]
-    run.inst(rule, f, 'leaves the loop only through the guard', not esc, 'the loop can be left while the queue is non-empty', obligation=True)
+    if not heads:
+        raise AnalysisError('complete_circuit: no while loop found')
+    drained = False
+    for h in heads:
+        rec, pol = is_nonempty_test(h.ast, q)
+        ok = rec and pol
+        run.inst(rule, f, 'loop `while %s` runs while the queue is non-empty' % norm(h.ast), ok,
+                 '' if ok else 'the loop guard %s is not "the queue is non-empty": complete_circuit can return with events pending' % norm(h.ast), node=h.ast, obligation=True)
+        body = g.loop_body(h)
+        steps = [n for n in body if n.kind not in ('entry', 'exit', 'xexit', 'def') and
+                 any(isinstance(c.func, ast.Attribute) and c.func.attr in ('next_rtc', 'dispatch') and dotted(c.func.value) == f.params[0] for c in n.calls())]
+        succ = [m for m, l in g.succ[h] if l == 'true']
+        cnt = g.count_on_paths(lambda n: 1 if n in steps else 0, start=succ[0], end=h) if succ else None
+        ok = cnt is not None and cnt[0] >= 1
+        run.inst(rule, f, 'every iteration of `while %s` takes a step' % norm(h.ast), ok,
+                 '' if ok else 'an iteration of the loop may take no step (steps per iteration %s): livelock' % (cnt,), node=h.ast, obligation=True)
+        esc = [n for n in g.nodes if n.kind == 'stmt' and isinstance(n.ast, (ast.Return, ast.Break)) and any(x is n.ast for x in ast.walk(h.stmt))]
+        run.inst(rule, f, '`while %s` is left only through its guard' % norm(h.ast), not esc, 'the loop can be left while the queue is non-empty', node=h.ast, obligation=True)
+    # every normal path to the exit passes the false edge of a non-empty guard (the queue was seen empty last)
+    def not_via_guard(a, b, lab):
+        return not (a in heads and lab == 'false')
+    leak = g.exit in g.reachable(g.entry, edge_ok=not_via_guard)
+    run.inst(rule, f, 'complete_circuit returns only after seeing the queue empty', not leak,
+             '' if not leak else 'a path of complete_circuit returns without the non-empty guard having failed', obligation=True)
 
 
-def check_locking_deque(run, model, rule_ends, rule_token, rule_bound, rule_monotone=None, rule_repair=None):
+def check_dispatch_sites(run, model, rule, E):
+    """every call self.dispatch(x) made by a queued chart outside the dispatch overrides themselves dispatches a value that was
+    popped from the consumer end by the statement that defines x: one pop <-> one dispatch, so a post made by a handler is seen
+    before the next event is taken"""
+    from .hsmsites import reaching_defs
+    hq = model.cls('HsmWithQueues')
+    n_sites = 0
+    for k in [hq] + model.subclasses(hq):
+        for f in k.methods.values():
+            if f.name == 'dispatch':
+                continue
+            fs = [f] + list(f.nested.values())
+            for ff in fs:
+                selfn = f.params[0] if f.params else None
+                calls = [c for c in shallow_calls(ff.node) if isinstance(c.func, ast.Attribute) and c.func.attr == 'dispatch' and dotted(c.func.value) == selfn]
+                if not calls:
+                    continue
+                g = cfg_of(ff)
+                rd, valmap = reaching_defs(g, ff.params)
+                for c in calls:
+                    n_sites += 1
+                    node = [n for n in g.nodes if n.kind not in ('entry', 'exit', 'xexit', 'def') and any(x is c for x in n.walk())][0]
+                    arg = c.args[0] if c.args else None
+                    for kw in c.keywords:
+                        if kw.arg in ('e', 'event'):
+                            arg = kw.value
+                    ok = False
+                    why = 'the dispatched value is %s' % (norm(arg) if arg is not None else None)
+                    if isinstance(arg, ast.Name):
+                        ds = rd[node].get(arg.id, set())
+                        vals = [valmap.get(d) for d in ds if d[0] != 'param']
+                        ok = bool(vals) and len(vals) == len(ds) and all(
+                            isinstance(v, ast.Call) and isinstance(v.func, ast.Attribute) and v.func.attr in REMOVE and END[v.func.attr] == E and dotted(v.func.value) == selfn + '.queue'
+                            for v in vals)
+                        if not ok:
+                            why = 'the dispatched value %s is not defined by a pop from the consumer end of the queue right before the dispatch' % arg.id
+                    elif isinstance(arg, ast.Call) and isinstance(arg.func, ast.Attribute) and arg.func.attr in REMOVE and END[arg.func.attr] == E and dotted(arg.func.value) == selfn + '.queue':
+                        ok = True
+                    run.inst(rule, ff, 'dispatch site in %s dispatches the event it just popped' % ff.name, ok,
+                             '' if ok else ('%s calls dispatch outside the one-pop-one-dispatch pairing (%s): events taken from the queue in advance are dispatched after events that a '
+                                            'handler posts to the front in the meantime - the dispatch order is no longer that of the deque' % (ff.qualname, why)), node=c, obligation=True)
+    run.floor('dispatch call sites of queued charts', n_sites, 1)
+
+
+def check_locking_deque(run, model, rule_ends, rule_token, rule_bound, rule_monotone=None, rule_repair=None, rule_lock=None):
     """LockingDeque: forwarding on every path, token protocol, capacity"""
     ld = model.cls('LockingDeque')
     init = ld.methods.get('__init__')
@@ -212,6 +263,11 @@ def check_locking_deque(run, model, rule_ends, rule_token, rule_bound, rule_mono
         f = ld.methods.get(nm)
         if f is None:
             raise AnalysisError('LockingDeque.%s not found' % nm)
+        # helpers of the class that do the work (possibly receiving the bound deque method) are inlined first
+        inl_node, inl = inline_self_helpers(f, ld, model)
+        if inl:
+            f = FuncView(f, inl_node)
+            run.note('LockingDeque.%s: inlined helper(s) %s' % (nm, ', '.join(inl)))
         g = cfg_of(f)
         run.touch(f, g)
         selfn, item = f.params[0], f.params[1]
@@ -241,10 +297,26 @@ def check_locking_deque(run, model, rule_ends, rule_token, rule_bound, rule_mono
                 lt_tests.append((t, cp[1]))
             elif cp and is_len(cp[0], selfn, dq) and is_qsize(cp[2], selfn, tq):
                 lt_tests.append((t, {ast.Gt: ast.Lt, ast.GtE: ast.LtE, ast.NotEq: ast.NotEq, ast.Lt: ast.Gt, ast.LtE: ast.GtE, ast.Eq: ast.Eq}[cp[1]]))
+        fpar = parents(f.node)
         for n, c, m in puts:
             if m == 'put_nowait' or any(kw.arg == 'block' and isinstance(kw.value, ast.Constant) and kw.value.value is False for kw in c.keywords):
                 run.inst(rule_token, f, 'non-blocking put', True, node=c, nontrivial=False)
                 continue
+            # a blocking put must not be executed while a lock is held (the guard was evaluated before the lock was taken)
+            p_ = fpar.get(c)
+            held = None
+            while p_ is not None and p_ is not f.node:
+                if isinstance(p_, ast.With):
+                    for it_ in p_.items:
+                        d_ = dotted(it_.context_expr) or norm(it_.context_expr)
+                        if 'lock' in d_.lower() or 'mutex' in d_.lower():
+                            held = d_
+                p_ = fpar.get(p_)
+            if rule_lock:
+              run.inst(rule_lock, f, 'blocking token put is not made while holding a lock', held is None,
+                     '' if held is None else ('the blocking put of a wake-up token runs inside `with %s`: two posters that both saw "not full" at 499 tokens race, the second blocks in '
+                                              'put() holding the lock, and the consumer - which needs that lock to pop and thereby make room - blocks too: the post never returns' % held),
+                     node=c, obligation=True)
             g1 = any(guarded_by_edge(g, n, t, lab) for t, lab in full_tests)
             g2 = any(op is ast.Lt and guarded_by_edge(g, n, t, 'true') for t, op in lt_tests)
             ok = g1 or g2
